@@ -47,7 +47,12 @@ THEOREMS = [
 ]
 RULE = ("cases: arraymap histories of 20..200 get/set operations over key length 1..6, 2..4 branches, initial_size 2..8, max_size 8..64 "
         "(non-trivial: the history contains a growth, a flush and a hit); jitted DenovoMCMC fits with cache on / off; no-JIT monitored runs "
-        "of the three samplers (tiny caches, two temperatures, parents with unequal numbers of distinct reads). Distinct by history / instance.")
+        "of the three samplers (tiny caches, two temperatures, parents with unequal numbers of distinct reads, samples without reads, read rows "
+        "permuted so that zero-count rows precede positive-count rows, read_counts=None, Gibbs and MH updates, swap steps of every parental pair "
+        "of a mixed-ploidy family); jitted: a fit on a space that overflows the cache, the call sampler cache on / off / CallingMCMC.fit, dict "
+        "caches with genotype indices beyond 2^53 and 2^63, 300 haplotypes x 3 samples in one pedigree cache, pedigree Gibbs / MH updates on a "
+        "caller-supplied cache audited entry by entry; `mchap assemble` with --mcmc-llk-cache-threshold -1 / 0 under tempering. "
+        "Distinct by history / instance.")
 
 
 def val_str(x):
